@@ -1,6 +1,7 @@
 import Hl7.Model.Datatypes
 import Hl7.Model.Parse
 import Hl7.Model.Message
+import Hl7.Model.Mllp
 import Hl7.Gen.All
 /-!
 # Line-protocol driver: one operation per input line, one canonical result line per operation.
@@ -54,6 +55,33 @@ partial def showNodes : List Msg.Node → String
 end
 
 def optHex (o : Option (List Char)) : String := match o with | some t => "s" ++ tohex t | none => "-"
+
+partial def unhexBytes : List Char → List UInt8
+  | a :: b :: r => (hexVal a * 16 + hexVal b).toUInt8 :: unhexBytes r
+  | _ => []
+
+def parseEvents (s : String) : List Mllp.Ev :=
+  (s.splitOn ",").filterMap fun tok =>
+    match tok.toList with
+    | 'c' :: hx => some (.chunk (unhexBytes hx))
+    | ['t'] => some .timeout
+    | ['e'] => some .eof
+    | _ => none
+
+/-- handlers of the MLLP harness: `types` registered (reply "ACK:"+type), `raising` registered but raising,
+    optional ERR handler (reply "ERR:"+exception kind) -/
+def mkHandlers (types raising : List (List Char)) (err : Bool) : Mllp.Handlers :=
+  let all := types ++ raising
+  { byType := all.zipIdx.map (fun (t, i) => (t, i)),
+    err := if err then some 999 else none,
+    behave := fun id _ => match all[id]? with
+      | some t => if raising.contains t then none else some ("ACK:".toList ++ t)
+      | none => none,
+    errBehave := fun e _ => some ("ERR:".toList ++ e.toList) }
+
+def showInv (hs : List (List Char)) : Mllp.Inv → String
+  | .handler id => "H:" ++ tohex (hs.getD id [])
+  | .errHandler _ e => "E:" ++ e
 
 def handle (line : String) : String :=
   match line.splitOn " " with
@@ -127,6 +155,13 @@ def handle (line : String) : String :=
     match Msg.getMessageInfo (unhex hx.toList) with
     | .ok (ec, st, ver) => "ok " ++ tohex ([ec.field, ec.comp, ec.sub, ec.rep, ec.esc] ++ ec.trunc.toList) ++ " " ++ optHex st ++ " " ++ optHex ver
     | .error e => "exc " ++ e.show
+  | ["MLLP", types, raising, err, evs] =>
+    let ts := (types.splitOn ",").filter (· != "-") |>.map (fun h => unhex h.toList)
+    let rs := (raising.splitOn ",").filter (· != "-") |>.map (fun h => unhex h.toList)
+    let hs := mkHandlers ts rs (err == "1")
+    let o := Mllp.handle hs (parseEvents evs)
+    "inv=" ++ ",".intercalate (o.invocations.map (showInv (ts ++ rs))) ++ " reply=" ++ (match o.reply with | some r => tohex r | none => "-")
+      ++ " closed=" ++ (if o.closed then "1" else "0")
   | _ => "bad-op"
 
 partial def loop (h : IO.FS.Stream) (out : IO.FS.Stream) : IO Unit := do
